@@ -168,6 +168,15 @@ def scenario(rng_choice):
     return {'k': 'chain', 'flavour': 'chain', 'layers': [src, t, cache]}
 
 
+def merge_scenario(size):
+    """Merge of two datasets >> a field reading two merged fields >> RAM cache: the routing decision of one call must not be
+    seen by another call (edges are shared between threads)"""
+    parts = [{'k': 'source', 'cls': f'MS{j}', 'ids': [i], 'fields': {'x': {'args': ['i'], 'f': f'MS{j}.x'}, 'y': {'args': ['i'], 'f': f'MS{j}.y'}},
+              'params': {}, 'cargs': {}, 'defaults': {}} for j, i in enumerate(['a', 'b'])]
+    t = {'k': 'transform', 'cls': 'MT', 'fields': {'pair': {'args': ['x', 'y']}}, 'params': {}, 'cargs': {}, 'defaults': {}, 'inherit': True}
+    return {'k': 'chain', 'flavour': 'chain', 'layers': [{'k': 'merge', 'parts': parts}, t, {'k': 'ram', 'names': ['pair'], 'size': size}]}
+
+
 def run_schedule(desc, plans, schedule):
     """plans: per thread a list of (field, key); returns (results per thread, access log, completed?)"""
     paths.use_repo()
@@ -228,9 +237,15 @@ def run_schedule(desc, plans, schedule):
     return results, log, ok, ctrl.trace
 
 
-def expected(plans):
+def expected(plans, desc=None):
     """the sequential value of every call: symbolic, so it depends on (field, key) only"""
     out = []
+    if desc is not None and desc['layers'][0]['k'] == 'merge':
+        owner = {'a': 0, 'b': 1}
+        for plan in plans:
+            out.append([canon({'app': ['MT.pair', [{'app': [f'MS{owner[k]}.x', [k], [], []]}, {'app': [f'MS{owner[k]}.y', [k], [], []]}], [], []]})
+                        for f, k in plan])
+        return out
     for plan in plans:
         out.append([canon({'app': [f'TT.{f}', [{'app': ['TS.a', [k], [], []]}], [], []]}) for f, k in plan])
     return out
@@ -242,7 +257,7 @@ def check_one(desc, plans, schedule):
     if not ok:
         problems.append('the schedule did not complete (deadlock or timeout)')
         return problems, len(trace)
-    want = expected(plans)
+    want = expected(plans, desc)
     for tid, (rs, ws) in enumerate(zip(results, want)):
         for r, w, call in zip(rs, ws, plans[tid]):
             if 'err' in r:
@@ -264,9 +279,16 @@ def run_shard(args):
     keys = ['a', 'b', 1, -1, -2]
     n_threads = 3 if three and rng.random() < 0.5 else 2
     plans = []
-    for t in range(n_threads):
-        plans.append([(rng.choice(['x', 'y'] if two else ['x']), rng.choice(keys[:3] if rng.random() < 0.7 else keys))
-                      for _ in range(rng.choice([1, 2, 2]))])
+    if rng.random() < 0.3:
+        desc = merge_scenario(size)
+        for t in range(n_threads):
+            plans.append([('pair', rng.choice(['a', 'b'])) for _ in range(rng.choice([1, 2]))])
+        if len({k for p in plans for _, k in p}) == 1:
+            plans[-1][-1] = ('pair', 'b' if plans[0][0][1] == 'a' else 'a')
+    else:
+        for t in range(n_threads):
+            plans.append([(rng.choice(['x', 'y'] if two else ['x']), rng.choice(keys[:3] if rng.random() < 0.7 else keys))
+                          for _ in range(rng.choice([1, 2, 2]))])
     schedules = [list(w) for w in itertools.product(range(n_threads), repeat=depth)]
     rng.shuffle(schedules)
     schedules = schedules[:extra_random[0]]
